@@ -214,10 +214,10 @@ def _work(args):
 def run(tier, seed, log):
     t0 = time.time()
     common.pjplan()
-    ids, W = [1, 2, 1], 2
+    ids, W = [0, 2, 0], 2
     blobs = states(ids, W, 1200 if tier == "quick" else 100000, log)
     if tier == "thorough":
-        blobs += states([1, 2, 3, 1], 2, 4000, log)[::3]
+        blobs += states([0, 2, 3, 0], 2, 4000, log)[::3]
     log("copy: %d reachable states of the real objects (%.0fs)" % (len(blobs), time.time() - t0))
     U0 = graph.Universe(ids, W)
     fails = []
